@@ -1,5 +1,5 @@
 use super::errors::{ErrorKind, ParserError};
-use super::{core::Parser, core::Result, slice::Slice};
+use super::{core::Parser, core::Result, slice::matches_fluent_ws, slice::Slice};
 use crate::ast;
 
 #[derive(Debug, PartialEq)]
@@ -106,7 +106,13 @@ where
                         || termination_reason == TextElementTermination::LineFeed
                         || placeable_led
                     {
-                        if text_element_type == TextElementType::NonBlank {
+                        // Text made only of characters that `trim` removes (a lone `\r` is
+                        // text, but trimmable) must not end the pattern as an empty element.
+                        if text_element_type == TextElementType::NonBlank
+                            && !self.source.as_ref()[start..end]
+                                .trim_end_matches(matches_fluent_ws)
+                                .is_empty()
+                        {
                             last_non_blank = Some(elements.len());
                         }
                         // A whitespace-only line contributes only its line break.
